@@ -448,32 +448,23 @@ func substring(ctx *context, args []Datum) (retLit Datum) {
 	num1 := args[1].Number("substring()")
 	num2 := args[2].Number("substring()")
 
-	substrLen := len(lit0)
-	if substrLen == 0 {
-		return NewLiteralDatum("")
+	// XPATH 1.0 section 4.2: the result contains the characters whose
+	// position p (the first character is at position 1) satisfies
+	//   p >= round(num1) and p < round(num1) + round(num2)
+	// evaluated in IEEE 754 arithmetic, so that NaN and infinite arguments
+	// behave as the specification describes.  Positions are counted in
+	// characters, not bytes.
+	first := xpathRound(num1)
+	limit := first + xpathRound(num2)
+	var b strings.Builder
+	pos := 0
+	for _, c := range lit0 {
+		pos++
+		if p := float64(pos); p >= first && p < limit {
+			b.WriteRune(c)
+		}
 	}
-
-	// NB: XPATH uses 1 as first index in string, not zero, so we have to
-	//     subtract one here.  We also need to ensure both start and end Pos
-	//     are >= 0.
-	startPos := int(math.Trunc(num1+0.5)) - 1
-	endPos := int(math.Trunc(num2+0.5)) + startPos
-	if startPos < 0 {
-		// Only do this AFTER calculating endPos as the spec says we calculate
-		// length based on the rounded difference of the two params.
-		startPos = 0
-	}
-	if startPos >= substrLen {
-		return NewLiteralDatum("")
-	}
-	if endPos < 0 {
-		endPos = 0
-	}
-	if endPos > substrLen {
-		endPos = substrLen
-	}
-	substr := lit0[startPos:endPos]
-	return NewLiteralDatum(substr)
+	return NewLiteralDatum(b.String())
 }
 
 func substringAfter(ctx *context, args []Datum) (retLit Datum) {
